@@ -3,6 +3,7 @@ use crate::core::driver::Prop;
 pub mod c01;
 pub mod c02;
 pub mod c04;
+pub mod c05;
 pub mod c17;
 pub mod execs;
 pub mod c09;
@@ -10,7 +11,7 @@ pub mod c10;
 pub mod c11;
 
 pub fn all() -> Vec<Box<dyn Prop>> {
-    vec![Box::new(c01::C01), Box::new(c02::C02), Box::new(c04::C04), Box::new(c17::C17), Box::new(c09::C09), Box::new(c10::C10), Box::new(c11::C11)]
+    vec![Box::new(c01::C01), Box::new(c02::C02), Box::new(c04::C04), Box::new(c05::C05), Box::new(c17::C17), Box::new(c09::C09), Box::new(c10::C10), Box::new(c11::C11)]
 }
 
 /// Developer utilities (`verif dbg <what> ...`).
@@ -36,6 +37,25 @@ pub fn debug_cmd(args: &[String]) {
             }
             rec(&db, root, 0);
             println!("{}", diags.format(&db));
+        }
+        Some("cfg") => {
+            use crate::core::exec::{FrontCfg, MetaCfg};
+            let src = std::fs::read_to_string(&args[1]).unwrap();
+            let mut db = FrontCfg::default_cfg().new_db(crate::core::cairo::Plugins::Default);
+            let mut cfgs = vec![FrontCfg::default_cfg()];
+            cfgs.push(FrontCfg { optimizations: false, inlining: 0, skip_const_folding: true, match_threshold: None });
+            cfgs.push(FrontCfg { optimizations: true, inlining: 1, skip_const_folding: false, match_threshold: None });
+            cfgs.push(FrontCfg { optimizations: true, inlining: 202, skip_const_folding: true, match_threshold: Some(1) });
+            cfgs.push(FrontCfg::default_cfg());
+            for c in cfgs {
+                c.apply(&mut db);
+                let input = crate::core::cairo::virtual_crate_input("x", &src, crate::core::cairo::SETTINGS_2024_07, None);
+                match crate::core::exec::sierra_of_crate(&db, &input) {
+                    Ok(p) => println!("{} -> {} statements, hash {:x}", c.describe(), p.statements.len(), crate::core::choices::hash_str(&p.to_string())),
+                    Err(e) => println!("{} -> error {}", c.describe(), &e[..e.len().min(300)]),
+                }
+                let _ = MetaCfg::linear();
+            }
         }
         Some("rare") => {
             let db = cairo_lang_parser::utils::SimpleParserDatabase::default();
